@@ -2,7 +2,7 @@
    Statements only; proofs live in ChunkedProofs.v.  Model: ChunkedModel.v (TeChunkedParser::parse,
    the callers' loop `run` over a schedule of (newly read bytes, output space) steps).
    Spec side: `encode` / `body` of a `message` (RFC 9112 7.1 written as an encoder), `message_ok`. *)
-Require Import SquidV.Bytes SquidV.TokModel SquidV.ChunkedModel SquidV.ChunkedProofs.
+Require Import SquidV.Bytes SquidV.TokModel SquidV.Incremental SquidV.ChunkedModel SquidV.ChunkedProofs.
 Require Import SquidV.gen.CharSets_gen.
 Local Open Scope N_scope.
 
@@ -91,23 +91,54 @@ Theorem C24_ext_stage_acceptance_is_final : forall relaxed st b x st' t3 o,
 Proof. exact meta_stable_go. Qed.
 Print Assumptions C24_ext_stage_acceptance_is_final.
 
-(* --- "malformed extensions are rejected" for every segmentation: FALSE for the code as it is --- *)
-Theorem C24_malformed_ext_trailing_bws_refuted :
-  exists enc s_whole s_split,
-    segs s_whole = enc /\ segs s_split = enc /\
-    (forall m tail, message_ok m -> enc <> encode m ++ tail) /\
-    r_status (run_chunked false s_whole) = RThrow EExtCrlf /\
-    r_status (run_chunked false s_split) = RDone /\
-    r_status (run_chunked true s_split) = RDone.
-Proof. exact ext_trailing_bws_refuted. Qed.
-Print Assumptions C24_malformed_ext_trailing_bws_refuted.
+(* --- segmentation independence for ALL inputs (valid or not), both modes ---
+   [step relaxed s b] = one parse(b) call in state s with output space that never fills (as in http.cc),
+   classified as the caller sees it: Done body rest | Bad (exception kind / trailer too big, output so far) |
+   More s' keep (keep = remaining()).  [decode_segments] = the read loop Incremental.drive over a list of
+   segments, [decode_whole] = a single call on the whole input.  Since the repair 1aa8f1c the chunk-ext
+   checkpoint commutes unconditionally, so the generic theorem of Incremental.v applies. *)
+Theorem C24_definitive_outcomes_stable : forall relaxed,
+  stable_done dstate bytes dbad (step relaxed) dinv fits /\
+  stable_bad dstate bytes dbad (step relaxed) dinv fits.
+Proof. exact (fun relaxed => conj (step_stable_done relaxed) (step_stable_bad relaxed)). Qed.
+Print Assumptions C24_definitive_outcomes_stable.
 
-(* what does hold (partial: one buffer only): BWS between a chunk extension and CRLF is rejected *)
-Theorem C24_malformed_ext_trailing_bws_unsplit_partial : forall relaxed st name w x,
-  p_stage st = StExt -> token_ok name -> lenN name + 1 < npos -> w <> [] -> bws_ok w ->
-  meta_suffix relaxed st (59 :: name ++ w ++ 13 :: 10 :: x) (59 :: name ++ w ++ 13 :: 10 :: x) = SThrow EExtCrlf [].
-Proof. exact reject_ext_trailing_bws_unsplit. Qed.
-Print Assumptions C24_malformed_ext_trailing_bws_unsplit_partial.
+Theorem C24_checkpoints_commute : forall relaxed,
+  checkpoint_commutes dstate bytes dbad (step relaxed) dinv fits.
+Proof. exact step_checkpoint. Qed.
+Print Assumptions C24_checkpoints_commute.
+
+Theorem C24_segmentation_independent : forall relaxed segments,
+  segments <> [] -> lenN (concat segments) <= npos ->
+  decode_segments relaxed segments = decode_whole relaxed (concat segments).
+Proof. exact decode_segmentation_independent. Qed.
+Print Assumptions C24_segmentation_independent.
+
+Theorem C24_any_two_segmentations_agree : forall relaxed segs1 segs2,
+  segs1 <> [] -> segs2 <> [] -> concat segs1 = concat segs2 -> lenN (concat segs1) <= npos ->
+  decode_segments relaxed segs1 = decode_segments relaxed segs2.
+Proof. exact decode_two_segmentations. Qed.
+Print Assumptions C24_any_two_segmentations_agree.
+
+Theorem C24_segmentation_independent_from_checkpoint : forall relaxed s keep segments,
+  segments <> [] -> dinv s -> fits (keep ++ concat segments) ->
+  Incremental.drive dstate bytes dbad (step relaxed) s keep segments = step relaxed s (keep ++ concat segments).
+Proof. exact decode_from_checkpoint. Qed.
+Print Assumptions C24_segmentation_independent_from_checkpoint.
+
+(* --- the repaired finding: BWS between a chunk extension and CRLF is rejected, however the bytes arrive --- *)
+Theorem C24_rejects_ext_trailing_bws : forall relaxed cap ds v e es w x,
+  digits_ok ds v -> Forall ext_ok (e :: es) -> w <> [] -> bws_ok w ->
+  parse relaxed cap init_state (ds ++ enc_exts (e :: es) ++ w ++ crlf ++ x) = PThrow EExtCrlf [].
+Proof. exact reject_ext_trailing_bws. Qed.
+Print Assumptions C24_rejects_ext_trailing_bws.
+
+Theorem C24_rejects_ext_trailing_bws_for_every_segmentation : forall relaxed ds v e es w x segments,
+  digits_ok ds v -> Forall ext_ok (e :: es) -> w <> [] -> bws_ok w ->
+  segments <> [] -> concat segments = ds ++ enc_exts (e :: es) ++ w ++ crlf ++ x -> lenN (concat segments) <= npos ->
+  decode_segments relaxed segments = Incremental.Bad (BThrow EExtCrlf []).
+Proof. exact reject_ext_trailing_bws_every_segmentation. Qed.
+Print Assumptions C24_rejects_ext_trailing_bws_for_every_segmentation.
 
 (* --- the hypotheses are satisfiable: a concrete message, its encoding, a starved schedule --- *)
 Definition ex_msg : message :=
@@ -140,3 +171,11 @@ Proof. vm_compute. repeat split; reflexivity. Qed.
 Example C24_ex_reject_hyps : at_size init_state /\ is_hex 103 = false /\
   digits_ok [49; 70] 31 /\ ws_chars true 120 = false /\ ws_chars false 11 = false.
 Proof. repeat split; try (left; reflexivity); try discriminate; vm_compute; reflexivity. Qed.
+
+(* "5;a=b \r\nhello\r\n0\r\n\r\n" (the input of the repaired finding): same rejection whole and split after the BWS *)
+Example C24_ex_former_finding :
+  let enc := [53; 59; 97; 61; 98; 32; 13; 10; 104; 101; 108; 108; 111; 13; 10; 48; 13; 10; 13; 10] in
+  decode_segments false [takeN 6 enc; dropN 6 enc] = Incremental.Bad (BThrow EExtCrlf []) /\
+  decode_segments true [takeN 7 enc; dropN 7 enc] = Incremental.Bad (BThrow EExtCrlf []) /\
+  decode_whole false enc = Incremental.Bad (BThrow EExtCrlf []).
+Proof. vm_compute. repeat split; reflexivity. Qed.
